@@ -101,6 +101,9 @@ func (ev *evaluator) runQuery(q *cypher.RegularQuery) (gmodel.Result, error) {
 }
 
 func (ev *evaluator) readingClauses(clauses []*cypher.ReadingClause, s stream) (stream, error) {
+	if ev.cutPending && len(clauses) > 0 && ev.opts.Observe != nil {
+		ev.opts.Observe.WindowFeedsLaterClause = true
+	}
 	for _, clause := range clauses {
 		var err error
 		switch {
@@ -315,6 +318,9 @@ func (ev *evaluator) with(w *cypher.With, s stream) (stream, error) {
 	if w.Where == nil {
 		return projected, nil
 	}
+	if ev.cutPending && ev.opts.Observe != nil {
+		ev.opts.Observe.WindowFeedsLaterClause = true
+	}
 	if err := checkScope(w.Where, scopeOf(projected.scope), nil); err != nil {
 		return s, err
 	}
@@ -449,9 +455,14 @@ func (ev *evaluator) project(p *cypher.Projection, s stream, final bool) (stream
 		return s, err
 	}
 
-	aggregating := false
+	aggregating, grouping := false, false
 	for _, item := range items {
 		aggregating = aggregating || item.agg
+		grouping = grouping || !item.agg
+	}
+	if ev.cutPending && ev.opts.Observe != nil && ((aggregating && grouping) || p.Distinct || p.Skip != nil || p.Limit != nil) {
+		// (an aggregation without grouping keys returns one row whatever passed the earlier window)
+		ev.opts.Observe.WindowFeedsLaterClause = true
 	}
 
 	if err := ev.checkProjectionScope(p, items, s, aggregating); err != nil {
@@ -605,6 +616,9 @@ func (ev *evaluator) project(p *cypher.Projection, s stream, final bool) (stream
 			}
 			if cut {
 				ev.opts.Observe.ArbitraryWindow = true
+				if !final {
+					ev.cutPending = true
+				}
 			}
 		}
 	}
